@@ -67,3 +67,22 @@ func DebugWalkPC(repo, name string, n int) {
 		fmt.Printf("#%d conv=%v cut=%q panic=%q order=%v\n", i, t.Converged, t.Cut, t.Panic, t.Order)
 	}
 }
+
+func DebugCtx(repo string) {
+	p, err := Load(Config{Repo: repo})
+	if err != nil {
+		fmt.Println(err)
+		return
+	}
+	wl := runWalkLayers(p)
+	for _, r := range wl.Runs {
+		fmt.Printf("%s traces=%d init=", fnName(r.Fn), len(r.Traces))
+		for k, v := range r.Env.Init {
+			fmt.Printf("%s:{%s} ", k, kmaskNames(v))
+		}
+		for k, v := range r.Env.Suffix {
+			fmt.Printf("*%s:{%s} ", k, kmaskNames(v))
+		}
+		fmt.Println()
+	}
+}
